@@ -313,8 +313,12 @@ def run(ctx):
     cs = [bb for (bb, t) in gb.calls() if callee_name(t) in prog.fns and fk in prog.reach([callee_name(t)], foreign_trait_impls=False)
           and callee_name(t) != kvp_fn]
     builders_always = [c for c in cs if _always_builds(prog, callee_name(gb.blocks[c]["term"]), fk)]
-    if kv_calls and all(any(gb.postdominates(c, k) for c in builders_always) for k in kv_calls):
-        r6.ok("rebuild", "create-suggestion post-dominates the key-value processor")
+    _, ctor_names_ = builders.suggestion_ctor_sites(prog)
+    empty_ctors_ = {k for k, v in ctor_names_.items() if v == "empty"}
+    buf_ = roles[fx]["buffer"]
+    flag_ = prog.method_impl(fx, "ongoing_input_session") if buf_ in roles[fx].get("session_fields", ()) else None
+    if kv_calls and all(common.passes_or_ends_empty(prog, gb, k, builders_always, buf_, flag_, builders.SUGG, empty_ctors_)[0] for k in kv_calls):
+        r6.ok("rebuild", "after the key-value processor every path runs create-suggestion (or finds the composed text empty and returns the empty suggestion)")
     else:
         r6.violation("rebuild", "a key that changed the composed text can return without rebuilding the list (a stale list / pre-edit text is handed out)", common.fn_line(prog, gs))
     # the distance constructor's step (shared with C07)
